@@ -534,3 +534,11 @@ def op_stats(ops, res, acc):
         acc["final_states_with_multi_listed_vertex"] = acc.get("final_states_with_multi_listed_vertex", 0) + int(any(
             len([x for x in v if x is not None]) != len({x for x in v if x is not None}) for v in snap["lverts"]))
         acc["histories"] = acc.get("histories", 0) + 1
+
+
+def small_scope(seed_ops, alphabet, maxlen):
+    """every history seed_ops ++ w for w over `alphabet` with 1 <= len(w) <= maxlen"""
+    import itertools as _it
+    for n in range(1, maxlen + 1):
+        for w in _it.product(alphabet, repeat=n):
+            yield list(seed_ops) + [list(o) for o in w]
